@@ -126,6 +126,17 @@ func (r *run) chooseN(n int, what string) int {
 	if n <= 1 {
 		return 0
 	}
+	if c := r.eng.Concrete; c != nil {
+		v := 0
+		if r.choicePos < len(c.Choices) {
+			v = int(c.Choices[r.choicePos])
+		}
+		r.choicePos++
+		if v >= n {
+			v = 0
+		}
+		return v
+	}
 	if r.pos < len(r.trace) {
 		d := r.trace[r.pos]
 		r.pos++
@@ -133,10 +144,10 @@ func (r *run) chooseN(n int, what string) int {
 		return int(d.Val)
 	}
 	for k := 1; k < n; k++ {
-		alt := append(append([]Decision{}, r.taken...), Decision{Val: uint64(k)})
-		*r.work = append(*r.work, alt)
+		alt := append(append([]Decision{}, r.taken...), Decision{Val: uint64(k), Choice: true})
+		r.pushAlt(alt)
 	}
-	r.taken = append(r.taken, Decision{Val: 0})
+	r.taken = append(r.taken, Decision{Val: 0, Choice: true})
 	return 0
 }
 
